@@ -102,6 +102,17 @@ example : Ex.T.wf = true ∧ Ex.j1.dupFree = true ∧ unm {} Ex.T Ex.j1 Ex.T.zer
     unm {} Ex.T Ex.j1 Ex.v1 = .ok Ex.v1 := by
   refine ⟨by decide, by decide, by rfl, by rfl⟩
 
+/-- Any number of repetitions of the same duplicate-free tree folds to that tree (with `chain_law`: unmarshaling the
+same text `k + 1` times in a row leaves what one call leaves). -/
+theorem mergeAll_replicate (a : JTree) (ha : a.dupFree = true) (k : Nat) :
+    JTree.mergeAll (List.replicate (k + 1) a) = a := by
+  show (List.replicate k a).foldl JTree.merge a = a
+  induction k with
+  | zero => rfl
+  | succ k ih => rw [List.replicate_succ, List.foldl_cons, merge_idem a ha, ih]
+
+example : JTree.mergeAll (List.replicate 3 Ex.j1) = Ex.j1 := mergeAll_replicate Ex.j1 (by decide) 2
+
 /-- `merge` is NOT associative: a non-object in the middle of a chain resets the destination
 (`({x} ⊕ null) ⊕ {y} = {y}` but `{x} ⊕ (null ⊕ {y}) = {x,y}`), which is why `chain_law` is stated —
 and only true — for the LEFT fold of `merge`, the order in which successive calls happen. -/
